@@ -19,10 +19,10 @@ type zzQ struct {
 
 type zzGraph struct {
 	n      int
-	dep    [4][4]bool
-	runs   [4]int
-	panics [4]bool
-	fails  [4]bool
+	dep    [5][5]bool
+	runs   [5]int
+	panics [5]bool
+	fails  [5]bool
 }
 
 func (q zzQ) Key() any { return q.i }
@@ -70,7 +70,7 @@ func (g *zzGraph) want(i int) int {
 func HarnessC33Seq() {
 	g := &zzGraph{n: 3}
 	if zz.Tier() == 1 {
-		g.n = 4
+		g.n = 5
 	}
 	for i := 0; i < g.n; i++ {
 		for j := i + 1; j < g.n; j++ {
@@ -110,7 +110,7 @@ func HarnessC33Seq() {
 	}
 	zz.Assert(e.sema.TryAcquire(1), "C33/permit-free-after-runs")
 	e.sema.Release(1)
-	var reach [4][4]bool
+	var reach [5][5]bool
 	for i := 0; i < g.n; i++ {
 		for j := 0; j < g.n; j++ {
 			reach[i][j] = i == j || g.dep[i][j]
